@@ -3,7 +3,7 @@
    max_field_size accounting), the lax value check ("\n" / "\r" / "\x00" in value) and no
    duplicate-singleton check; status line parsed on the utf-8/surrogateescape-DECODED text with
    str.split()/strip(); _is_chunked_te by rsplit; close defaults; HttpPayloadParser in lax mode
-   (strip()'ed chunk sizes, optional CR skipped after chunk data and after the last-chunk line);
+   (strip()'ed chunk sizes, optional CR skipped after chunk data);
    response_with_body=False (HEAD), read_until_eof, EMPTY_BODY_STATUS_CODES; feed_eof.
    The parser is created as the client does: method=None, code=None, no payload_exception.
    Definitions only.  The payload consumer never pauses (no decompression, large read limit). *)
@@ -210,15 +210,15 @@ Definition parse_response (mf : N) (lines : list bytes) : rres rmsg :=
 (* ---------------- payload ---------------- *)
 (* RDataEnd crs: after chunk data, before its line terminator; crs is a GHOST mark kept only while
    the parser waits for input: "an optional CR was already skipped in the read that just ended"
-   (Python keeps no such mark: the next read skips one CR again).  RTrail0: the last-chunk line has
-   just been consumed, the optional CR after it not yet looked for; when a read ends there Python is
-   in PARSE_TRAILERS and never skips that CR: `unpark` (applied when the next read starts). *)
-Inductive rcstate := RSize | RData (rem : N) | RDataEnd (crs : bool) | RTrail0 | RTrailers.
+   (Python keeps no such mark: the next read skips one CR again): `unpark`, applied when the next
+   read starts.  After the last-chunk line nothing is skipped (repair eb945bb): a CR there belongs to
+   the first trailer line, whose rstrip(CR) makes "CR LF" the empty line. *)
+Inductive rcstate := RSize | RData (rem : N) | RDataEnd (crs : bool) | RTrailers.
 Inductive rpkind := RLength (rem : N) | RChunked (c : rcstate) | RUntilEof.
 Record rpstate := mkRP { rpk : rpkind; rctail : bytes; rtlines : list bytes (* in order *); rmax_trailers : N }.
 
 Definition unpark (c : rcstate) : rcstate :=
-  match c with RDataEnd _ => RDataEnd false | RTrail0 => RTrailers | _ => c end.
+  match c with RDataEnd _ => RDataEnd false | _ => c end.
 
 Record rrec := mkRR {
   rr_msg : rmsg; rr_body : bool (* a real payload stream, not EMPTY_PAYLOAD *);
@@ -265,7 +265,7 @@ Fixpoint rchunked_loop (fuel : nat) (lim : limits) (mt : N) (c : rcstate) (tl : 
           let size_b := strip_bws (match split_byte 59 raw with Some (sz, _) => sz | None => raw end) in
           if negb (nonempty size_b && forallb hex_digit size_b) then QFail ETransferEncoding evs
           else let size := parse_hex size_b in
-               if size =? 0 then rchunked_loop f lim mt RTrail0 tl rest evs
+               if size =? 0 then rchunked_loop f lim mt RTrailers tl rest evs
                else rchunked_loop f lim mt (RData size) tl rest evs
         | None => QNeed (mkRP (RChunked RSize) chunk tl mt) evs
         end
@@ -285,9 +285,6 @@ Fixpoint rchunked_loop (fuel : nat) (lim : limits) (mt : N) (c : rcstate) (tl : 
           end
         else if a =? 10 then rchunked_loop f lim mt RSize tl r evs
         else QFail ETransferEncoding evs
-      | RTrail0 =>
-        if a =? 13 then rchunked_loop f lim mt RTrailers tl r evs
-        else rchunked_loop f lim mt RTrailers tl chunk evs
       | RTrailers =>
         match find_lf chunk with
         | None => QNeed (mkRP (RChunked RTrailers) chunk tl mt) evs
@@ -316,7 +313,6 @@ Definition rtoo_long (lim : limits) (p : rpstate) : bool :=
     | [], _ => false
     | _, RData _ => false
     | t, RTrailers => max_field lim <? lenN t
-    | t, RTrail0 => max_field lim <? lenN t
     | t, _ => max_line lim <? lenN t
     end
   | _ => false
